@@ -1,8 +1,10 @@
+use std::borrow::{Borrow, Cow};
 use std::cell::RefCell;
 use std::collections::hash_map::Entry;
 use std::collections::{BTreeMap, BTreeSet, HashMap, HashSet};
 use std::convert::TryFrom;
-use std::fmt::Formatter;
+use std::fmt::{Display, Formatter};
+use std::ops::Deref;
 use std::rc::Rc;
 use std::str::FromStr;
 
@@ -170,8 +172,9 @@ impl<'de> Deserialize<'de> for OptionWrapper<Inventory> {
                                 duplicate_field(ID_FIELD, self.result);
                                 map.next_value::<Value>()?;
                             } else {
-                                match map.next_value::<&str>() {
+                                match map.next_value::<JsonStr>() {
                                     Ok(value) => {
+                                        let value: &str = &value;
                                         if URI::try_from(value).is_err() {
                                             self.result.warn(
                                                 WarnCode::W005,
@@ -216,8 +219,8 @@ impl<'de> Deserialize<'de> for OptionWrapper<Inventory> {
                                 duplicate_field(DIGEST_ALGORITHM_FIELD, self.result);
                                 map.next_value::<Value>()?;
                             } else {
-                                match map.next_value::<&str>() {
-                                    Ok(value) => match DigestAlgorithm::from_str(value) {
+                                match map.next_value::<JsonStr>() {
+                                    Ok(value) => match DigestAlgorithm::from_str(&value) {
                                         Ok(algorithm) => {
                                             if algorithm != DigestAlgorithm::Sha512
                                                 && algorithm != DigestAlgorithm::Sha256
@@ -261,8 +264,8 @@ impl<'de> Deserialize<'de> for OptionWrapper<Inventory> {
                                 duplicate_field(HEAD_FIELD, self.result);
                                 map.next_value::<Value>()?;
                             } else {
-                                match map.next_value::<&str>() {
-                                    Ok(value) => match VersionNum::try_from(value) {
+                                match map.next_value::<JsonStr>() {
+                                    Ok(value) => match VersionNum::try_from(&*value) {
                                         Ok(num) => head = Some(num),
                                         Err(_) => {
                                             self.result.error(
@@ -287,8 +290,9 @@ impl<'de> Deserialize<'de> for OptionWrapper<Inventory> {
                                 duplicate_field(CONTENT_DIRECTORY_FIELD, self.result);
                                 map.next_value::<Value>()?;
                             } else {
-                                match map.next_value::<&str>() {
+                                match map.next_value::<JsonStr>() {
                                     Ok(value) => {
+                                        let value: &str = &value;
                                         if value.eq(".") || value.eq("..") {
                                             self.result.error(ErrorCode::E018,
                                                          format!("Inventory 'contentDirectory' cannot equal '.' or '..'. Found: {}", value));
@@ -558,9 +562,10 @@ impl<'de: 'b, 'a, 'b> DeserializeSeed<'de> for VersionsSeed<'a, 'b> {
                 let mut all_versions = BTreeSet::new();
 
                 loop {
-                    match map.next_key()? {
+                    match map.next_key::<JsonStr>()? {
                         None => break,
                         Some(version_num) => {
+                            let version_num: &str = &version_num;
                             let num = match VersionNum::try_from(version_num) {
                                 Ok(num) => {
                                     all_versions.insert(num);
@@ -728,8 +733,8 @@ impl<'de: 'b, 'a, 'b, 'c> DeserializeSeed<'de> for VersionSeed<'a, 'b, 'c> {
                                 duplicate_version_field(CREATED_FIELD, self.version, self.result);
                                 map.next_value::<Value>()?;
                             } else {
-                                match map.next_value::<&str>() {
-                                    Ok(value) => match DateTime::parse_from_rfc3339(value) {
+                                match map.next_value::<JsonStr>() {
+                                    Ok(value) => match DateTime::parse_from_rfc3339(&value) {
                                         Ok(value) => created = Some(value.with_timezone(&Local)),
                                         Err(_) => {
                                             self.result.error(ErrorCode::E049,
@@ -865,7 +870,7 @@ impl<'de: 'b, 'a, 'b, 'c> DeserializeSeed<'de> for VersionSeed<'a, 'b, 'c> {
 
 struct ManifestResult<'a> {
     manifest: PathBiMap<ContentPath>,
-    digests: HashSet<&'a str>,
+    digests: HashSet<JsonStr<'a>>,
 }
 
 struct ManifestSeed<'a, 'b> {
@@ -901,11 +906,11 @@ impl<'de: 'b, 'a, 'b> DeserializeSeed<'de> for ManifestSeed<'a, 'b> {
                 let mut digests = HashSet::with_capacity(map.size_hint().unwrap_or(0));
 
                 loop {
-                    match map.next_key()? {
+                    match map.next_key::<JsonStr>()? {
                         None => break,
                         Some(digest) => {
-                            digests.insert(digest);
-                            match map.next_value::<Vec<&str>>() {
+                            digests.insert(digest.clone());
+                            match map.next_value::<Vec<JsonStr>>() {
                                 Ok(paths) => {
                                     let mut content_paths = Vec::with_capacity(paths.len());
 
@@ -915,7 +920,7 @@ impl<'de: 'b, 'a, 'b> DeserializeSeed<'de> for ManifestSeed<'a, 'b> {
                                                               format!("Inventory manifest key '{}' contains a path with a leading/trailing '/'. Found: {}",
                                                                       digest, path));
                                         } else {
-                                            match ContentPath::try_from(path) {
+                                            match ContentPath::try_from(&*path) {
                                                 Ok(content_path) => {
                                                     content_paths.push(content_path)
                                                 }
@@ -927,7 +932,7 @@ impl<'de: 'b, 'a, 'b> DeserializeSeed<'de> for ManifestSeed<'a, 'b> {
                                             }
                                         }
 
-                                        if all_paths.contains(path) {
+                                        if all_paths.contains(&*path) {
                                             self.result.error(ErrorCode::E101,
                                                           format!("Inventory manifest contains duplicate path '{}'",
                                                                   path));
@@ -938,7 +943,7 @@ impl<'de: 'b, 'a, 'b> DeserializeSeed<'de> for ManifestSeed<'a, 'b> {
 
                                     let path_refs: Vec<Rc<ContentPath>> =
                                         content_paths.into_iter().map(Rc::new).collect();
-                                    let digest_ref = self.data.insert_digest(digest);
+                                    let digest_ref = self.data.insert_digest(digest.clone());
 
                                     if manifest.contains_id(&digest_ref) {
                                         self.result.error(
@@ -1014,11 +1019,11 @@ impl<'de: 'b, 'a, 'b, 'c> DeserializeSeed<'de> for StateSeed<'a, 'b, 'c> {
                 let mut all_paths = HashSet::with_capacity(map.size_hint().unwrap_or(0));
 
                 loop {
-                    match map.next_key()? {
+                    match map.next_key::<JsonStr>()? {
                         None => break,
-                        Some(digest) => match map.next_value::<Vec<&str>>() {
+                        Some(digest) => match map.next_value::<Vec<JsonStr>>() {
                             Ok(paths) => {
-                                let digest_ref = self.data.insert_digest(digest);
+                                let digest_ref = self.data.insert_digest(digest.clone());
                                 let mut path_refs = Vec::with_capacity(paths.len());
 
                                 for path in paths {
@@ -1027,7 +1032,7 @@ impl<'de: 'b, 'a, 'b, 'c> DeserializeSeed<'de> for StateSeed<'a, 'b, 'c> {
                                                               format!("In inventory version {}, state key '{}' contains a path with a leading/trailing '/'. Found: {}",
                                                                       self.version, digest, path));
                                     } else {
-                                        match self.data.insert_path::<A::Error>(path) {
+                                        match self.data.insert_path::<A::Error>(path.clone()) {
                                             Ok(logical_path) => path_refs.push(logical_path),
                                             Err(_) => {
                                                 self.result.error(ErrorCode::E052,
@@ -1037,7 +1042,7 @@ impl<'de: 'b, 'a, 'b, 'c> DeserializeSeed<'de> for StateSeed<'a, 'b, 'c> {
                                         }
                                     }
 
-                                    if all_paths.contains(path) {
+                                    if all_paths.contains(&*path) {
                                         self.result.error(ErrorCode::E095,
                                                           format!("In inventory version {}, state contains duplicate path '{}'",
                                                                   self.version, path));
@@ -1195,8 +1200,9 @@ impl<'de, 'a, 'b> DeserializeSeed<'de> for UserSeed<'a, 'b> {
                                 duplicate_version_field(ADDRESS_FIELD, self.version, self.result);
                                 map.next_value::<Value>()?;
                             } else {
-                                match map.next_value::<&str>() {
+                                match map.next_value::<JsonStr>() {
                                     Ok(value) => {
+                                        let value: &str = &value;
                                         if URI::try_from(value).is_err() {
                                             self.result.warn(WarnCode::W009,
                                                               format!("Inventory version {} user 'address' should be a URI. Found: {}",
@@ -1256,10 +1262,66 @@ impl<'de, 'a, 'b> DeserializeSeed<'de> for UserSeed<'a, 'b> {
     }
 }
 
+/// A JSON string that is borrowed from the input when possible and copied when the JSON text
+/// contains escape sequences. Deserializing to `&str` fails for strings with escapes.
+#[derive(Debug, Clone, PartialEq, Eq, Hash)]
+struct JsonStr<'a>(Cow<'a, str>);
+
+impl Deref for JsonStr<'_> {
+    type Target = str;
+
+    fn deref(&self) -> &str {
+        &self.0
+    }
+}
+
+impl Borrow<str> for JsonStr<'_> {
+    fn borrow(&self) -> &str {
+        &self.0
+    }
+}
+
+impl Display for JsonStr<'_> {
+    fn fmt(&self, f: &mut Formatter<'_>) -> std::fmt::Result {
+        f.write_str(&self.0)
+    }
+}
+
+impl<'de: 'a, 'a> Deserialize<'de> for JsonStr<'a> {
+    fn deserialize<D>(deserializer: D) -> Result<Self, D::Error>
+    where
+        D: Deserializer<'de>,
+    {
+        struct JsonStrVisitor;
+
+        impl<'de> Visitor<'de> for JsonStrVisitor {
+            type Value = JsonStr<'de>;
+
+            fn expecting(&self, formatter: &mut Formatter) -> std::fmt::Result {
+                formatter.write_str("a string")
+            }
+
+            fn visit_borrowed_str<E: SerdeError>(self, v: &'de str) -> Result<Self::Value, E> {
+                Ok(JsonStr(Cow::Borrowed(v)))
+            }
+
+            fn visit_str<E: SerdeError>(self, v: &str) -> Result<Self::Value, E> {
+                Ok(JsonStr(Cow::Owned(v.to_string())))
+            }
+
+            fn visit_string<E: SerdeError>(self, v: String) -> Result<Self::Value, E> {
+                Ok(JsonStr(Cow::Owned(v)))
+            }
+        }
+
+        deserializer.deserialize_str(JsonStrVisitor)
+    }
+}
+
 #[derive(Debug)]
 struct DigestsAndPaths<'a> {
-    digests: HashMap<&'a str, Rc<HexDigest>>,
-    paths: HashMap<&'a str, Rc<LogicalPath>>,
+    digests: HashMap<JsonStr<'a>, Rc<HexDigest>>,
+    paths: HashMap<JsonStr<'a>, Rc<LogicalPath>>,
 }
 
 impl<'a> DigestsAndPaths<'a> {
@@ -1270,22 +1332,25 @@ impl<'a> DigestsAndPaths<'a> {
         }
     }
 
-    fn insert_digest(&mut self, digest: &'a str) -> Rc<HexDigest> {
-        self.digests
-            .entry(digest)
-            .or_insert_with(|| Rc::new(digest.into()))
-            .clone()
+    fn insert_digest(&mut self, digest: JsonStr<'a>) -> Rc<HexDigest> {
+        match self.digests.entry(digest) {
+            Entry::Occupied(entry) => entry.get().clone(),
+            Entry::Vacant(vacant) => {
+                let digest_rc = Rc::new(HexDigest::from(&**vacant.key()));
+                vacant.insert(digest_rc).clone()
+            }
+        }
     }
 
-    fn insert_path<E>(&mut self, path: &'a str) -> Result<Rc<LogicalPath>, E>
+    fn insert_path<E>(&mut self, path: JsonStr<'a>) -> Result<Rc<LogicalPath>, E>
     where
         E: SerdeError,
     {
         match self.paths.entry(path) {
             Entry::Occupied(entry) => Ok(entry.get().clone()),
             Entry::Vacant(vacant) => {
-                let path =
-                    LogicalPath::try_from(path).map_err(|e| SerdeError::custom(e.to_string()))?;
+                let path = LogicalPath::try_from(&**vacant.key())
+                    .map_err(|e| SerdeError::custom(e.to_string()))?;
                 let path_rc = Rc::new(path);
                 let clone = path_rc.clone();
                 vacant.insert(path_rc);
@@ -1445,12 +1510,12 @@ fn validate_fixity(
     }
 }
 
-fn validate_non_conflicting<F>(paths: &HashSet<&str>, error: F)
+fn validate_non_conflicting<F>(paths: &HashSet<JsonStr>, error: F)
 where
     F: Fn(&str, &str),
 {
     for path in paths {
-        let mut part = *path;
+        let mut part: &str = path;
         while let Some(index) = part.rfind('/') {
             part = &part[0..index];
             if paths.contains(part) {
